@@ -96,6 +96,9 @@ def run_property(prop, tier="quick", repo_root="/repo", seed=0, only=None, verbo
     contracts = [c for q, c in sorted(spec.contracts.items()) if prop in c.tags]
     if only:
         contracts = [c for c in contracts if only in c.qual]
+    skip = os.environ.get("PYVC_SKIP")  # staged runs of ./check: everything but the named function first
+    if skip:
+        contracts = [c for c in contracts if skip not in c.qual]
     fun_results = []
     all_obls = []
     out_of_reach = []
